@@ -64,9 +64,9 @@ CHECKS.update({
    ref="DESIGN.md §3 C13"),
  'C19': dict(
    text="Lean theorems for every distance oracle, tolerance and sizes: cm_tp_fn, cm_tp_fp (used knees are duplicate-free indices < |K|), cm_sum, cm_tn_nonneg, cm_greedy_step; "
-        "accuracy_unit, f1_unit, mcc_sq_le_one ((tp*tn-fp*fn)^2 <= (tp+fp)(tp+fn)(tn+fp)(tn+fn)), perfect-detection values. Tie: exact oracle-fed correspondence of evaluation.cm; "
+        "accuracy_unit, f1_unit, mcc_sq_le_one ((tp*tn-fp*fn)^2 <= (tp+fp)(tp+fn)(tn+fp)(tn+fn)), perfect-detection values; matching errors (Props/C19M): nearest_closest, mae/mse/rmspe^2 >= 0, = 0 when E is the knee points (mseSides_eq_zero_iff), strategy_* (which side each strategy iterates). Tie: exact oracle-fed correspondence of evaluation.cm; "
         "direct predicates for accuracy/F1/MCC ranges and for MAE/MSE/RMSE/RMSPE against a reference nearest-neighbour matching for the 4 strategies.",
-   note=TB + " The matching-error scores (mae/mse/rmse/rmspe, strategy side) are decided by the direct predicate on the real code (reference implementation in the harness), not by a theorem: partial for that clause.",
+   note=TB + " RMSE = sqrt(MSE) is a direct predicate (sqrt is not modelled); (near-)equidistant nearest neighbours are compared relationally.",
    tech="Lean 4 proof (Nodup/pigeonhole invariant of the greedy matching; polynomial inequality for MCC) + exact oracle-fed differential correspondence",
    ref="DESIGN.md §3 C19"),
 })
@@ -165,10 +165,10 @@ CHECKS.update({
 CHECKS.update({
  'C03': dict(
    text="Lean theorems over Q for EVERY exact two-slope elbow (structure IsElbow: any strictly increasing x, any distinct rational slopes, any offset, arms >= 3 segments - more general than the property): "
-        "elbow_curvature, elbow_menger, elbow_lmethod_scan, elbow_lmethod_none, elbow_dfdt (with a full model of ISODATA: isodata_between - the corner gradient is strictly closer to the threshold than either slope, "
-        "dfdt_elbow incl. the tail refinement), plus the Kneedle results listed in Props/C03.lean. Tie: all five real detectors with every Fit x Cost x Refinement x limit return the corner on sampled elbows (arms to 1500), "
+        "elbow_curvature, elbow_menger, elbow_dfdt (with a full model of ISODATA: isodata_between - the corner gradient is strictly closer to the threshold than either slope; incl. the tail refinement), "
+        "lmethod_elbow_gen (L-method for EVERY Fit x Cost x Refinement option and every limit, least squares via olsRss, sqrt a parameter with sq 0 = 0 and positivity), elbow_kneedle (t = 0, all four direction x concavity cases on monotone elbows). Tie: all five real detectors with every Fit x Cost x Refinement x limit return the corner on sampled elbows (arms to 1500), "
         "the oracle-fed and the exact-Q detector models agree, cfdQ/csdQ vs uts.gradient under tolerance.",
-   note=TB + " Partial: best-fit (np.polyfit) L-method, adjusted/original refinement on elbows and any Kneedle orientation not proved in Props/C03.lean are covered by the sampled correspondence only.",
+   note=TB + " Trusted beyond the usual: np.polyfit's residual = olsRss, uts ISODATA = isodataQ, ema_linear(tau=0) = identity (tied by the sampled correspondence only).",
    tech="Lean 4 proof (exact criteria over Q: three-point derivatives, Menger curvature, RSS of end-point lines, ISODATA iteration invariant) + differential correspondence on exact elbows",
    ref="DESIGN.md §3 C03"),
 })
